@@ -156,6 +156,8 @@ def run(ctx):
                  "(input, mode) pairs the library accepted",
             schema_pairs_in_fragment=len(ctx.schemas["index"]) if hasattr(ctx, "schemas") else None,
             schema_distinct=len(ctx.schemas["schemas"]) if hasattr(ctx, "schemas") else None,
+            schema_pairs_weak_discipline_only=sorted(f"{t}@{v}" for (t, v) in ctx.schemas.get("index_weak", {})) if hasattr(ctx, "schemas") else None,
+            schema_unsynced_control_members=ctx.schemas.get("unsynced_control") if hasattr(ctx, "schemas") else None,
             schema_opaque_types=sorted(k for k in ctx.schemas["opaque"] if "@" not in k) if hasattr(ctx, "schemas") else None,
             schema_ignored_normalisers=ctx.schemas.get("normalisers") if hasattr(ctx, "schemas") else None,
             schema_blocks_decoded=decoded, schema_blocks_without_schema=noschema, schema_pairs_validated=len(validated),
